@@ -1,5 +1,262 @@
+(* C08 - Timestamp parsing round-trips ISO-8601 and epoch forms and is total.
+   Property theorems only, about the definitions of Model/C08.v that the correspondence
+   evaluates ([parse_iso], the casts); each is closed by [exact] of a lemma from
+   Proofs/C08*.v and followed by Print Assumptions.  [render_*] are the specification-side
+   ISO renderers (the correspondence checks them against CPython's isoformat()). *)
 From Coq Require Import List ZArith NArith Bool.
-From Orso Require Import Base.Civil Gen.C08_Tables Model.C08 Proofs.C08.
-Theorem C08_stub : parse_iso VOther = Ok None.
-Proof. exact stub_other. Qed.
-Print Assumptions C08_stub.
+From Orso Require Import Base.Civil Gen.C08_Tables Model.C08.
+From Orso Require Import Proofs.C08_Epoch Proofs.C08_Str Proofs.C08_Utf8 Proofs.C08_Core Proofs.C08.
+Import ListNotations.
+Open Scope Z_scope.
+
+(* ---- ISO renderings, seconds precision ----
+   Every date-time of years 1..9999, 'T' or space, any fraction of 0..6 digits, every
+   suffix in {none, Z, +hh:mm, +hhmm, -hh:mm, -hhmm}, as text and as UTF-8 bytes:
+   that wall-clock time with whole seconds. *)
+Theorem C08_iso_seconds :
+  forall y m d h mi s sep fr sf,
+  valid_date y m d = true -> valid_time h mi s = true -> is_sep sep = true ->
+  forallb ascii_digit fr = true -> (length fr <= 6)%nat -> valid_suffix sf = true ->
+  let text := render_seconds y m d h mi s sep fr sf in
+  parse_iso (VStr text) = Ok (Some (y, m, d, h, mi, s, 0)) /\
+  parse_iso (VBytes (utf8_encode text)) = Ok (Some (y, m, d, h, mi, s, 0)).
+Proof. exact iso_seconds. Qed.
+Print Assumptions C08_iso_seconds.
+
+(* Beyond 6 fraction digits: still that time exactly when the whole text has at most 33
+   characters and, for a '+' offset, the part before it at most 28 (i.e. up to 9 digits
+   with no suffix or Z, 8 with +hhmm / -hhmm, 7 with a colon offset) ... *)
+Theorem C08_iso_seconds_any_fraction :
+  forall y m d h mi s sep fr sf,
+  valid_date y m d = true -> valid_time h mi s = true -> is_sep sep = true ->
+  forallb ascii_digit fr = true -> valid_suffix sf = true ->
+  zlen (render_seconds y m d h mi s sep fr sf) <= 33 ->
+  (match sf with SPlus _ _ _ => zlen (render_frac fr) <= 9 | _ => True end) ->
+  let text := render_seconds y m d h mi s sep fr sf in
+  parse_iso (VStr text) = Ok (Some (y, m, d, h, mi, s, 0)) /\
+  parse_iso (VBytes (utf8_encode text)) = Ok (Some (y, m, d, h, mi, s, 0)).
+Proof. exact iso_seconds_gen. Qed.
+Print Assumptions C08_iso_seconds_any_fraction.
+
+(* ... and None for any non-digit text longer than 33 or shorter than 10 characters. *)
+Theorem C08_outside_length_window_none :
+  forall s, (33 < zlen s \/ zlen s < 10) -> str_isdigit s = false -> parse_iso (VStr s) = Ok None.
+Proof. intros s [H|H] Hd; [exact (too_long_none s H Hd)|exact (too_short_none s H Hd)]. Qed.
+Print Assumptions C08_outside_length_window_none.
+
+(* ---- minute precision: that minute, all six suffixes (F-C08-2 fixed) ---- *)
+Theorem C08_iso_minutes :
+  forall y m d h mi sep sf,
+  valid_date y m d = true -> valid_time h mi 0 = true -> is_sep sep = true -> valid_suffix sf = true ->
+  let text := render_minutes y m d h mi sep sf in
+  parse_iso (VStr text) = Ok (Some (y, m, d, h, mi, 0, 0)) /\
+  parse_iso (VBytes (utf8_encode text)) = Ok (Some (y, m, d, h, mi, 0, 0)).
+Proof. exact iso_minutes. Qed.
+Print Assumptions C08_iso_minutes.
+
+(* ---- date only: midnight, for suffix none / Z / +offset.
+   (A date followed by a negative offset is not an ISO 8601 form; the example below
+   records that 2020-01-01-05:00 is read as 05:00.) ---- *)
+Theorem C08_iso_dateonly :
+  forall y m d sf,
+  valid_date y m d = true -> valid_suffix sf = true -> not_minus sf = true ->
+  let text := render_dateonly y m d sf in
+  parse_iso (VStr text) = Ok (Some (y, m, d, 0, 0, 0, 0)) /\
+  parse_iso (VBytes (utf8_encode text)) = Ok (Some (y, m, d, 0, 0, 0, 0)).
+Proof. exact iso_dateonly. Qed.
+Print Assumptions C08_iso_dateonly.
+
+(* ---- bytes: any text given as UTF-8 parses as the text; undecodable bytes give None ---- *)
+Theorem C08_bytes_as_text :
+  (forall s, forallb scalar s = true -> parse_iso (VBytes (utf8_encode s)) = parse_iso (VStr s)) /\
+  (forall b, utf8_decode b = None -> parse_iso (VBytes b) = Ok None).
+Proof. split; [exact parse_iso_bytes|exact parse_iso_bad_bytes]. Qed.
+Print Assumptions C08_bytes_as_text.
+
+(* ---- native date / datetime: midnight, resp. the same wall clock without microseconds ---- *)
+Theorem C08_native_inputs :
+  (forall y m d, parse_iso (VDate y m d) = Ok (Some (y, m, d, 0, 0, 0, 0))) /\
+  (forall y m d h mi s us, parse_iso (VDatetime y m d h mi s us) = Ok (Some (y, m, d, h, mi, s, 0))).
+Proof. split; [exact native_date|exact native_datetime]. Qed.
+Print Assumptions C08_native_inputs.
+
+(* ---- the DATE / TIMESTAMP / TIME casts agree with parse_iso on every input ---- *)
+Theorem C08_casts_agree :
+  forall x,
+  (forall t, parse_iso x = Ok (Some t) ->
+     cast_timestamp x = Ok t /\ cast_date x = Ok (date_of t) /\ cast_time x = Ok (time_of t)) /\
+  (parse_iso x = Ok None ->
+     cast_timestamp x = Raise ValueError /\ cast_date x = Raise ValueError /\ cast_time x = Raise ValueError).
+Proof. exact casts_agree. Qed.
+Print Assumptions C08_casts_agree.
+
+(* ---- the calendar underneath the epoch branch: every day number is the day number of
+   the civil date computed for it, which is a valid date (146097-day sweep + periodicity) ---- *)
+Theorem C08_calendar_inverse :
+  forall z, let '(y, m, d) := civil_from_days z in
+  days_from_civil y m d = z /\ 1 <= m <= 12 /\ 1 <= d <= dim y m.
+Proof. exact days_civil_inverse. Qed.
+Print Assumptions C08_calendar_inverse.
+
+(* ---- integers are Unix seconds in UTC: in range, the valid civil time whose day number
+   and second of day recompose n ... ---- *)
+Theorem C08_epoch_in_range :
+  forall n, min_epoch <= n <= max_epoch ->
+  exists y m d h mi s,
+    parse_iso (VInt n) = Ok (Some (y, m, d, h, mi, s, 0)) /\
+    valid_date y m d = true /\ valid_time h mi s = true /\ epoch_of (y, m, d, h, mi, s, 0) = n.
+Proof. exact epoch_in_range. Qed.
+Print Assumptions C08_epoch_in_range.
+
+(* ... and None outside [0001-01-01T00:00:00, 9999-12-31T23:59:59], however large
+   (CPython raises ValueError / OverflowError / OSError there; all three are caught). *)
+Theorem C08_epoch_out_of_range :
+  forall n, n < min_epoch \/ max_epoch < n -> parse_iso (VInt n) = Ok None /\ parse_iso (VNpInt64 n) = Ok None.
+Proof. intros n H. split; [exact (epoch_out_of_range n H)|exact (epoch_out_of_range n H)]. Qed.
+Print Assumptions C08_epoch_out_of_range.
+
+(* ---- all-digit text (or its UTF-8 bytes) is the integer it spells; beyond int()'s
+   digit limit it is nothing like a date ---- *)
+Theorem C08_digit_string :
+  (forall s, s <> [] -> forallb ascii_digit s = true -> zlen s <= int_max_str_digits ->
+     parse_iso (VStr s) = parse_iso (VInt (digits_value s)) /\
+     parse_iso (VBytes (utf8_encode s)) = parse_iso (VInt (digits_value s))) /\
+  (forall s, forallb ascii_digit s = true -> int_max_str_digits < zlen s -> parse_iso (VStr s) = Ok None).
+Proof. split; [exact digit_string|exact digit_string_too_long]. Qed.
+Print Assumptions C08_digit_string.
+
+(* ---- floats: NaN and the infinities give None; a finite float m * 2^e is read as the
+   integer int() makes of it (so 1e300 gives None by C08_epoch_out_of_range) ---- *)
+Theorem C08_float_inputs :
+  parse_iso (VFloat FNan) = Ok None /\ parse_iso (VNpFloat64 FNan) = Ok None /\
+  parse_iso (VFloat FInf) = Ok None /\ parse_iso (VNpFloat64 FInf) = Ok None /\
+  (forall m e, parse_iso (VFloat (FFin m e)) = parse_iso (VInt (trunc_of m e)) /\
+               parse_iso (VNpFloat64 (FFin m e)) = parse_iso (VInt (trunc_of m e))).
+Proof.
+  split; [exact (proj1 float_nan)|]. split; [exact (proj2 float_nan)|].
+  split; [exact (proj1 float_inf)|]. split; [exact (proj2 float_inf)|]. exact float_finite.
+Qed.
+Print Assumptions C08_float_inputs.
+
+(* Full statement (wall clock truncated to whole seconds = floor):
+     forall m e, parse_iso (VFloat (FFin m e)) = parse_iso (VInt (floor_of m e)).
+   Proved for non-negative floats; refuted for negative non-integral ones (candidate
+   finding F-C08-3: -1.5 is read as 23:59:59, the text 1969-12-31T23:59:58.5 as 23:59:58). *)
+Theorem C08_float_floor_partial :
+  forall m e, 0 <= m -> parse_iso (VFloat (FFin m e)) = parse_iso (VInt (floor_of m e)).
+Proof. intros m e H. rewrite <- (float_nonneg_floor m e H). exact (proj1 (float_finite m e)). Qed.
+Print Assumptions C08_float_floor_partial.
+
+Theorem C08_float_floor_refuted :
+  exists m e, m < 0 /\ e < 0 /\ parse_iso (VFloat (FFin m e)) <> parse_iso (VInt (floor_of m e)).
+Proof. exact float_floor_refuted. Qed.
+Print Assumptions C08_float_floor_refuted.
+
+(* ---- numpy.datetime64, given what astype(datetime) returned: NaT gives None, date and
+   datetime results map like native inputs ... ---- *)
+Theorem C08_np_datetime64_partial :
+  parse_iso (VNpDatetime64 AsNone) = Ok None /\
+  (forall y m d, parse_iso (VNpDatetime64 (AsDate y m d)) = Ok (Some (y, m, d, 0, 0, 0, 0))) /\
+  (forall y m d h mi s us, parse_iso (VNpDatetime64 (AsDatetime y m d h mi s us)) = Ok (Some (y, m, d, h, mi, s, 0))).
+Proof. exact np_datetime64_units. Qed.
+Print Assumptions C08_np_datetime64_partial.
+
+(* ... but an integer result (nanosecond units) is divided in floating point and truncated
+   toward zero: before 1970 the second is rounded up (F-C08-3). *)
+Theorem C08_np_datetime64_ns_refuted :
+  exists n, parse_iso (VNpDatetime64 (AsInt n)) <> parse_iso (VInt (n / 1000000000)).
+Proof. exact np_ns_floor_refuted. Qed.
+Print Assumptions C08_np_datetime64_ns_refuted.
+
+(* ---- objects with to_pydatetime (pandas): the returned value is passed through as is,
+   so a sub-second part survives (candidate finding F-C08-4) ---- *)
+Theorem C08_to_pydatetime_refuted :
+  exists t, valid_dt t = false /\ parse_iso (VToPy (Some t)) = Ok (Some t).
+Proof. exact topy_refuted. Qed.
+Print Assumptions C08_to_pydatetime_refuted.
+
+(* ---- every other modelled input gives None ---- *)
+Theorem C08_other_none : parse_iso VOther = Ok None.
+Proof. exact other_none. Qed.
+Print Assumptions C08_other_none.
+
+(* ---- "a date or nothing like a date": whatever a text yields is a valid date-time with
+   whole seconds, and it is yielded only by all-digit text or by text that, after the
+   suffix is stripped, passes the positional shape test ... ---- *)
+Theorem C08_string_result :
+  forall s t, parse_iso (VStr s) = Ok (Some t) ->
+  valid_dt t = true /\
+  (str_isdigit s = true \/
+   (10 <= zlen s <= 33 /\ exists v, strip_suffix s = Ok (Some v) /\ shape_ok v = true)).
+Proof. exact string_result. Qed.
+Print Assumptions C08_string_result.
+
+(* ... equivalently: text failing the shape test gives None. *)
+Theorem C08_shape_fail_none :
+  forall s, str_isdigit s = false ->
+  (forall v, strip_suffix s = Ok (Some v) -> shape_ok v = false) ->
+  parse_iso (VStr s) = Ok None.
+Proof. exact shape_fail_none. Qed.
+Print Assumptions C08_shape_fail_none.
+
+(* ---- totality: on every modelled input parse_iso returns; no exception escapes (the
+   body raises only ValueError / OverflowError / OSError, never IndexError, and the handler
+   list read from the source names all three) ---- *)
+Theorem C08_total : forall x, exists r, parse_iso x = Ok r.
+Proof. exact parse_iso_total. Qed.
+Print Assumptions C08_total.
+
+Theorem C08_body_exceptions :
+  forall x e, parse_iso_body x = Raise e -> e = ValueError \/ e = OverflowError \/ e = OSError.
+Proof. exact body_raises. Qed.
+Print Assumptions C08_body_exceptions.
+
+(* ---- non-vacuity and observations ---- *)
+(* hypotheses of the round-trip theorems are satisfiable; the renderer produces the expected text *)
+Example C08_nonvacuous_seconds :
+  valid_date 2024 2 29 = true /\ valid_time 23 59 58 = true /\ is_sep cT = true /\
+  forallb ascii_digit [49; 50; 51; 52; 53; 54]%N = true /\ valid_suffix (SMinus true 5 30) = true /\
+  render_seconds 2024 2 29 23 59 58 cT [49; 50; 51; 52; 53; 54]%N (SMinus true 5 30) =
+    [50; 48; 50; 52; 45; 48; 50; 45; 50; 57; 84; 50; 51; 58; 53; 57; 58; 53; 56; 46; 49; 50; 51; 52; 53; 54; 45; 48; 53; 58; 51; 48]%N /\
+  parse_iso (VStr (render_seconds 2024 2 29 23 59 58 cT [49; 50; 51; 52; 53; 54]%N (SMinus true 5 30))) =
+    Ok (Some (2024, 2, 29, 23, 59, 58, 0)).
+Proof. vm_compute. repeat split; reflexivity. Qed.
+
+(* F-C08-2's witness, now parsed: 2020-01-01T10:00-05:00 *)
+Example C08_minute_negative_offset :
+  parse_iso (VStr (render_minutes 2020 1 1 10 0 cT (SMinus true 5 0))) = Ok (Some (2020, 1, 1, 10, 0, 0, 0)).
+Proof. vm_compute. reflexivity. Qed.
+
+(* F-C08-1's witnesses: 10**20, inf, '9'*20 give None *)
+Example C08_overflow_witnesses :
+  parse_iso (VInt (10 ^ 20)) = Ok None /\ parse_iso (VFloat FInf) = Ok None /\
+  parse_iso (VStr (repeat 57%N 20)) = Ok None.
+Proof. vm_compute. repeat split; reflexivity. Qed.
+
+(* observation: a date followed by a negative offset is read as a time *)
+Example C08_dateonly_negative_offset :
+  parse_iso (VStr (render_dateonly 2020 1 1 (SMinus true 5 0))) = Ok (Some (2020, 1, 1, 5, 0, 0, 0)).
+Proof. vm_compute. reflexivity. Qed.
+
+(* observation: a 9-digit fraction parses alone, but not with an offset (text longer than 33) *)
+Example C08_nanosecond_fraction :
+  let fr := [49; 50; 51; 52; 53; 54; 55; 56; 57]%N in
+  parse_iso (VStr (render_seconds 2020 1 1 10 0 0 cT fr SNone)) = Ok (Some (2020, 1, 1, 10, 0, 0, 0)) /\
+  parse_iso (VStr (render_seconds 2020 1 1 10 0 0 cT fr (SPlus true 0 0))) = Ok None.
+Proof. vm_compute. split; reflexivity. Qed.
+
+(* the range ends *)
+Example C08_epoch_ends :
+  parse_iso (VInt min_epoch) = Ok (Some (1, 1, 1, 0, 0, 0, 0)) /\
+  parse_iso (VInt max_epoch) = Ok (Some (9999, 12, 31, 23, 59, 59, 0)) /\
+  parse_iso (VInt 0) = Ok (Some (1970, 1, 1, 0, 0, 0, 0)) /\
+  parse_iso (VInt (min_epoch - 1)) = Ok None /\ parse_iso (VInt (max_epoch + 1)) = Ok None /\
+  fromtimestamp_utc (max_epoch + 1) = Raise ValueError /\
+  fromtimestamp_utc (2 ^ 62) = Raise OSError /\ fromtimestamp_utc (2 ^ 63) = Raise OverflowError.
+Proof. vm_compute. repeat split; reflexivity. Qed.
+
+(* a text that is nothing like a date satisfies the hypotheses of C08_shape_fail_none *)
+Example C08_shape_fail_nonvacuous :
+  let s := [104; 101; 108; 108; 111; 32; 119; 111; 114; 108; 100]%N in
+  str_isdigit s = false /\ strip_suffix s = Ok (Some s) /\ shape_ok s = false /\ parse_iso (VStr s) = Ok None.
+Proof. vm_compute. repeat split; reflexivity. Qed.
